@@ -359,8 +359,8 @@ class Ctx:
 # generators for the bounded search
 # =============================================================================================
 
-ALPHABET = ['a', 'b', 'x', 'n', 'ab', "a'b", 'a, b', 'a:b', 'n::a', 'x=1', 'a###b', '$$$', '', 'A', 'aB', '{A}', "'", '\\', ' ']
-NAMES = ['a', 'b', 'c', 'ab', 'n', 'xn', 'p', 'q']
+ALPHABET = ['a', 'b', 'x', 'n', 'ab', "a'b", 'a, b', 'a:b', 'n::a', 'x=1', 'a###b', '$$$', '', 'A', 'aB', '{A}', "'", '\\', ' ', 'm.v1', 'a.b.c', 'exp.big']
+NAMES = ['a', 'b', 'c', 'ab', 'n', 'xn', 'p', 'q', 'm.v1', 'a.b', 'exp.big', 'a_tmp']
 
 
 class Gen:
